@@ -121,8 +121,9 @@ def make_grid(shape, periodic, rng, fancy=True):
     from pde import CartesianGrid
 
     if fancy:
-        dx = [rng.choice([1.0, 0.5, 0.39, 1.5, 2.0]) for _ in shape]
-        lo = [rng.choice([0.0, -1.25, 3.0]) for _ in shape]
+        unit = rng.choice([1.0, 1.0, 1.0, 1e-9, 1e-3, 1e4])  # the unit of length (nothing may depend on it)
+        dx = [rng.choice([1.0, 0.5, 0.39, 1.5, 2.0]) * unit for _ in shape]
+        lo = [rng.choice([0.0, -1.25, 3.0]) * unit for _ in shape]
     else:
         dx, lo = [1.0] * len(shape), [0.0] * len(shape)
     return CartesianGrid([[a, a + n * d] for a, n, d in zip(lo, shape, dx)], list(shape), periodic=list(periodic))
@@ -197,21 +198,22 @@ def check_mask(ck: Check, grid, mask, reqs, expect, case, sig):
         unused.remove(hit)
         cand_comp.append(hit)
         for ax in range(dim):
-            if grid.periodic[ax] and not (lo[ax] - 1e-12 <= pos[ax] < lo[ax] + L[ax] + 1e-12):
+            if grid.periodic[ax] and not (lo[ax] - 1e-12 * L[ax] <= pos[ax] < lo[ax] + L[ax] * (1 + 1e-12)):
                 ck.fail(f"candidate position {pos} outside the box along periodic axis {ax}", {**sig, "check": "position_in_box"}, case)
     # survivors: no overlap; dropped only if dominated
     surv = [(d.position, d.radius) for d in em]
     for (p1, r1), (p2, r2) in itertools.combinations(surv, 2):
         if my_distance(p1, p2, grid) - (r1 + r2) < -tol:
             ck.fail(f"returned droplets at {p1} and {p2} overlap", {**sig, "check": "C02_no_overlap"}, case)
-    keys = [(tuple(np.round(p, 9)), round(r, 12)) for p, r in cands]
-    skeys = [(tuple(np.round(p, 9)), round(r, 12)) for p, r in surv]
+    scale = float(L.max())  # (keys relative to the box size: the unit of length may be anything)
+    keys = [(tuple(np.round(np.asarray(p) / scale, 9)), round(float(r) / scale, 12)) for p, r in cands]
+    skeys = [(tuple(np.round(np.asarray(p) / scale, 9)), round(float(r) / scale, 12)) for p, r in surv]
     if any(k not in keys for k in skeys) or [k for k in keys if k in skeys] != skeys:
         ck.fail("returned droplets are not a sub-list of the candidates", {**sig, "check": "removed_sublist"}, case)
     for (p, r), k in zip(cands, keys):
         if k in skeys:
             continue
-        if not any(r2 >= r - 1e-12 and (p2 is not p) and my_distance(p, p2, grid) - (r + r2) < tol for p2, r2 in cands):
+        if not any(r2 >= r * (1 - 1e-12) and (p2 is not p) and my_distance(p, p2, grid) - (r + r2) < tol for p2, r2 in cands):
             ck.fail(f"component at {p} left out although no component at least as large overlaps it", {**sig, "check": "C02_dropped_only_if_dominated"}, case)
     if len(surv) != len(cands):
         ck.count("some_candidate_removed")
